@@ -165,7 +165,7 @@ func prepare[Type any](opts Opts[Type]) (
 		return nil, nil, nil, err
 	}
 
-	if !common.IsDistributionFilled(strategic) {
+	if !common.IsDistributionFilledFor(priorities, strategic) {
 		return nil, nil, nil, ErrHandlersQuantityTooSmall
 	}
 
